@@ -19,7 +19,8 @@ CLAIM = ("Decides: every entry of get_derived_unit has the physical dimension of
          "recurses element-wise with the same target; the array helpers strip and re-attach the same unit variable (polyfit/polyval with the "
          "same exponent form); no handler in the conversion functions catches the ValueError of an incompatible conversion, the enumerated "
          "AttributeError/TypeError handlers re-raise unless the target is dimensionless; the registry tables pair each key with a unit of that "
-         "dimension and the registry product keeps every exponent.")
+         "dimension and the registry product keeps every exponent."
+         ' Arms of the unit helpers, argument order into numpy, pass-through guards, registry (de)serialisation arms (R7). Shared rule A1: no swapped same-named arguments at resolved in-package call sites.')
 DOES_NOT_DECIDE = "`quantities`' own arithmetic and rescale; the human-readable registry round trip on arbitrary registries; allclose semantics beyond its limit formula"
 ASSUMPTIONS = ["`quantities` unit/constant tables (typing environment)", "SI prefixes", "CODATA eV and N_A for per100eV (1e-5)"]
 F1 = Fraction(1)
